@@ -98,6 +98,29 @@ func refDepositScriptOK(version uint32, key *relayertypes.PublicKey, magic, evm,
 	return false
 }
 
+// refMerkle: bitcoin Merkle inclusion of leaf at position idx under root, path = concatenated
+// 32-byte siblings, leaves first.
+func refMerkle(leaf, root, path []byte, idx uint32) bool {
+	if len(leaf) != 32 || len(root) != 32 || len(path)%32 != 0 {
+		return false
+	}
+	n := len(path) / 32
+	if n < 32 && idx>>uint(n) != 0 {
+		return false
+	}
+	cur := append([]byte{}, leaf...)
+	for i := 0; i < n; i++ {
+		sib := path[i*32 : i*32+32]
+		if idx&1 == 1 {
+			cur = dsha(append(append([]byte{}, sib...), cur...))
+		} else {
+			cur = dsha(append(append([]byte{}, cur...), sib...))
+		}
+		idx >>= 1
+	}
+	return bytes.Equal(cur, root)
+}
+
 func refTax(value, rate, cap uint64) uint64 {
 	if rate == 0 || value <= 10000 {
 		return 0
@@ -351,6 +374,19 @@ func (w *World) checkCreditedDeposit(bi *BlockInfo, txi int, msg *bitcointypes.M
 		fail("unvoted-block", "deposit credited under bitcoin height %d which has no voted hash of the real chain", d.BlockNumber)
 		return
 	}
+	// ... and the submitted header for that height must be the voted one, with the transaction
+	// hashing into its Merkle root at the claimed position (reference implementation)
+	var hdr []byte
+	for _, h := range msg.BlockHeaders {
+		if h != nil && h.Height == d.BlockNumber {
+			hdr = h.Raw
+		}
+	}
+	if len(hdr) != 80 || !bytes.Equal(dsha(hdr), voted) {
+		fail("header-not-voted", "deposit credited under a submitted header for height %d whose hash is not the voted %x", d.BlockNumber, voted[:6])
+	} else if !refMerkle(txid, hdr[36:68], d.IntermediateProof, d.TxIndex) {
+		fail("merkle-mismatch", "transaction %x does not hash into the header's Merkle root at position %d with the given path", txid[:6], d.TxIndex)
+	}
 	idx := blk.indexOf(txid)
 	if idx < 0 {
 		fail("not-in-block", "transaction %x is not in bitcoin block %d", txid[:6], d.BlockNumber)
@@ -408,6 +444,17 @@ func (w *World) checkCreditedDeposit(bi *BlockInfo, txi int, msg *bitcointypes.M
 	}
 	if tax > 0 {
 		w.probe("deposit-taxed")
+	}
+	// value-exact: what the module queued for the execution layer is value - tax and tax
+	for _, q := range cur.Bitcoin.EthTxQueue.Deposits {
+		if q != nil && bytes.Equal(q.Txid, txid) && q.Txout == d.OutputIndex {
+			if q.Amount != value-tax || q.Tax != tax {
+				fail("value-mismatch", "output of %d satoshi (rate %d, cap %d) queued as amount %d + tax %d, expected %d + %d", value, params.DepositTaxRate, params.MaxDepositTax, q.Amount, q.Tax, value-tax, tax)
+			}
+			if !bytes.Equal(q.Address, d.EvmAddress) {
+				fail("address-mismatch", "queued for %x, claimed %x", q.Address, d.EvmAddress)
+			}
+		}
 	}
 	// what the execution layer must be told (amounts in wei = satoshi * 1e10)
 	sat := big.NewInt(1e10)
